@@ -9,11 +9,25 @@ META = dict(
 )
 
 
-def mc(ctx, n, paths, kinds, closed, cfg="FSCacheMC.cfg", timeout=3000):
+def consts(n, paths, kinds, closed, split="FALSE"):
     reqs = "{" + ",".join(str(i) for i in range(1, n + 1)) + "}"
     hs = "{" + ",".join(str(i) for i in range(1, 2 * n + 1)) + "}"
-    ctx.tlc_mc("util", "FSCacheMC", cfg, workers=4, timeout=timeout,
-               consts={"REQS": reqs, "HANDLES": hs, "PATHS": paths, "KINDS": kinds, "INITCLOSED": closed})
+    return {"REQS": reqs, "HANDLES": hs, "PATHS": paths, "KINDS": kinds, "INITCLOSED": closed, "SPLIT": split}
+
+
+def mc(ctx, n, paths, kinds, closed, cfg="FSCacheMC.cfg", timeout=3000):
+    ctx.tlc_mc("util", "FSCacheMC", cfg, workers=4, timeout=timeout, consts=consts(n, paths, kinds, closed))
+
+
+def sensitivity(ctx):
+    """Self-test of the specification: when close() drops cacheLock between `closed = true` and the
+    collection of the files (SplitClose), TLC must find the double release."""
+    r = ctx.tlc("util", "FSCacheMC", "FSCacheMC.cfg", workers=4, timeout=1200,
+                consts=consts(2, "{1,2}", "{0}", "FALSE", split="TRUE"), allow_codes=tuple(range(256)))
+    if r["code"] != 12 or "Invariant Inv is violated" not in r["out"]:
+        raise Infra("FSCache with SplitClose=TRUE was not refuted by TLC (exit %d): the specification lost its "
+                    "sensitivity to a non-atomic close" % r["code"])
+    ctx.extra["split_close_refuted_after_states"] = r["distinct"]
 
 
 def validate(ctx, tf, label):
@@ -37,8 +51,10 @@ def run(ctx):
         mc(ctx, 3, "{1,2}", "{0}", "TRUE")                        # noopCacheManager (SkipCache)
         mc(ctx, 2, "{1,2}", "{0,1}", "FALSE")                     # two cache kinds (plain + compressed)
         mc(ctx, 2, "{1,2}", "{0}", "FALSE", cfg="FSCacheMClive.cfg")   # + liveness: everything opened gets closed
+        sensitivity(ctx)
     ntr = ctx.pick(30, 400)
-    recs = ctx.go_test(".", ["c25_"], "^TestVerifC25FSCache$", timeout=2400, env={"VERIF_C25_TRACES": ntr})
+    recs = ctx.go_test(".", ["c25_"], "^TestVerifC25FSCache$", timeout=2400,
+                       env={"VERIF_C25_TRACES": ntr, "VERIF_C25_GATED": ctx.pick(8, 60)})
     ctx.absorb(recs)
     tf = ctx.extra.pop("trace_file", None)
     if not tf:
